@@ -611,7 +611,13 @@ class Keepdir(Dodir):
         filename = f".keep_{self.pkg.category}_{self.pkg.PN}-{self.pkg.slot}"
         for x in args.targets:
             path = pjoin(self.op.ED, x.lstrip(os.path.sep), filename)
-            open(path, "w").close()
+            try:
+                open(path, "w").close()
+            except OSError as e:
+                # a failed request, to be answered as such
+                raise IpcCommandError(
+                    f"failed creating {filename!r} in {x!r}: {e.strerror}"
+                )
 
 
 class Doexe(_InstallWrapper):
